@@ -1,5 +1,5 @@
 (** C09 — placeholder while the correspondence is being established. *)
-From BV Require Import Base.Prelude Shell.Vars Shell.Env Shell.Prog.
+From BV Require Import Base.Prelude Scope.Vars Scope.Env Scope.Prog.
 
 Theorem c09_push_pop : forall e k, fst (pop_scope k (push_scope k e)) = e.
 Proof. exact (fun e k => eq_refl). Qed.
